@@ -33,14 +33,23 @@ LEVEL_TEXT = ("Lean proof: for every delayed program (calls whose arguments nest
               "per call evaluates the program's key to exactly the value of the same program run eagerly (delayed_eval, by "
               "mutual structural induction with a graph invariant), provided equal keys denote equal values and a call's "
               "key differs from its dependencies' keys; nout-unpacking is the getitem instance; pure keys are a function "
-              "of the call and equal pure keys imply observably equal arguments (via C12). Symbolic programs are run "
-              "through the model, the real dask graph and eager Python on every run.")
-LEVEL_NOTE = ("functions, methods and operators are opaque (value algebra); keyword arguments, slices, dataclasses and "
-              "namedtuples inside arguments are validated by the API-level oracle only; key hypotheses H1/H2 are checked "
-              "on the real keys at run time and follow from C12 (pure) / uuid4 freshness (impure).")
+              "of the call and equal pure keys imply observably equal arguments (via C12). unpack_collections of "
+              "dask/delayed.py is transliterated (lists, tuples, sets, dicts, slices, dataclasses, namedtuples and their "
+              "iterators, positional and keyword arguments): the task it builds evaluates to the argument with every "
+              "Delayed replaced by its value, every level keeping its type (unpack_eval, call_args_eval), it refers to "
+              "exactly the Delayed values inside and all of them are reported as dependencies (mem_refs, mem_colls, "
+              "call_refs_covered); unpacked_arg_is_argEnv ties it to what delayed_eval assumes. Symbolic programs are run "
+              "through the model, the real dask graph and eager Python, and the real unpack_collections / call task is "
+              "diffed against the model, on every run.")
+LEVEL_NOTE = ("functions, methods and operators are opaque (value algebra); _finalize_args_collections (joint optimisation "
+              "of the collections of one argument, key renaming) and futures are outside the model; operators, attribute / "
+              "item access, methods with pure= / dask_key_name, nout over tuples, lists and dicts, and dask collections as "
+              "arguments are validated by the API-level oracle only; key hypotheses H1/H2 are checked on the real keys at "
+              "run time and follow from C12 (pure) / uuid4 freshness (impure).")
 TECHNIQUE = "Lean 4 proof (mutual structural induction over a nested program AST, graph-merge lemmas of C13) + differential correspondence"
 ASSUMPTIONS = ["uuid4 keys of impure calls are fresh", "md5 injective (pure keys)",
-               "HighLevelGraph.from_collections(name, {name: task}, dependencies) = the dependency graphs plus the new task"]
+               "HighLevelGraph.from_collections(name, {name: task}, dependencies) = the dependency graphs plus the new task",
+               "tuple(xs) / set(xs) of a computed list is the tuple / set of its elements (value algebra law of unpack_eval)"]
 TRUSTED = ["symbolic function family of harness/props/c15.py (a call returns the code of its function and arguments)"]
 
 M61 = 2305843009213693951
@@ -657,6 +666,11 @@ def _capture(*args, **kwargs):
     return (args, kwargs)
 
 
+class _Holder:
+    def capture(self, *args, **kwargs):
+        return (args, kwargs)
+
+
 def build_pv(spec, leaves, eager):
     """PV spec -> python object; `leaves[k]` is the Delayed standing for key k (eager: its value 1000 + k)"""
     t = spec[0]
@@ -700,6 +714,8 @@ def pv_of(obj, it_kind=None):
         return ["slice", pv_of(obj.start), pv_of(obj.stop), pv_of(obj.step)]
     if type(obj) in UDS.values():
         return ["dc", len(dataclasses.fields(obj)), [pv_of(getattr(obj, f.name)) for f in dataclasses.fields(obj)]]
+    if hasattr(obj, "__next__"):
+        return ["unconverted-iterator", type(obj).__name__]      # the model never hands an iterator on
     raise ValueError(f"no PV for {obj!r}")
 
 
@@ -745,6 +761,15 @@ def dec_tt(m):
     if t == "slice":
         return ["slice"] + [dec_tt(x) for x in m[1:4]]
     return [t, m[1], [dec_tt(x) for x in m[2:]]]
+
+
+def _canon_sets(j):
+    """the children of every set in a canonical order (sets inside handed-on objects too)"""
+    if isinstance(j, list):
+        j = [_canon_sets(x) for x in j]
+        if len(j) == 2 and j[0] in ("set", "iset") and isinstance(j[1], list):
+            j = [j[0], sorted(j[1], key=lambda x: json.dumps(x, sort_keys=True))]
+    return j
 
 
 def _set_canon(c):
@@ -872,18 +897,15 @@ def case_unpackfn(ctx, inp):
     kinds = set()
     for pos, spec in enumerate(inp["args"] + [v for _, v in inp["kwargs"]]):
         obj = build_pv(spec, leaves, False)
-        is_iter = spec[0] in ("ilist", "ituple", "iset")
-        actual = pv_of(build_pv([spec[0][1:], spec[1]], leaves, False)) if is_iter and spec[0] != "iset" else None
-        if spec[0] == "iset":
-            base = build_pv(["set", spec[1]], leaves, False)
-            obj, actual = iter(base), pv_of(base)
-        if actual is None:
-            actual = pv_of(obj)
-        else:
-            actual = [spec[0], actual[1]]
+        # what dask sees, read off a twin object in which the iterators are the containers they iterate over
+        twin = pv_of(build_pv(_deiter(spec), leaves, False))
+        if not _same_shape(spec, twin):
+            ctx.note("unpackfn-entries-merged-by-python")      # equal set elements / dict keys (a namedtuple equals its tuple)
+            return
+        actual = _retag(spec, twin)
         task, colls = unpack_collections(obj)
         m_task, m_colls = ctx.lean(Sym("dunpack"), enc_pv(actual))
-        ctx.eq("unpack_collections: task", dec_tt(m_task), canon_task(task))
+        ctx.eq("unpack_collections: task", _canon_sets(dec_tt(m_task)), _canon_sets(canon_task(task)))
         if "set" in json.dumps(spec):
             ctx.eq("unpack_collections: collections (as a multiset)", sorted(f"k{k}" for k in m_colls), sorted(c.key for c in colls))
         else:
@@ -910,8 +932,31 @@ def case_unpackfn(ctx, inp):
     opts = {}
     if inp.get("pure"):
         opts["pure"] = True
+    how = inp.get("how", "function")
     try:
-        d = delayed(_capture, **opts)(*args, **kwargs)
+        if how == "method":
+            # a method of a delayed object (DelayedAttr.__call__), optionally pure / named
+            mk = {}
+            if inp.get("pure"):
+                mk["pure"] = True
+            if inp.get("named"):
+                mk["dask_key_name"] = "named-method-call"
+            d = delayed(_Holder(), name="holder").capture(*args, **kwargs, **mk)
+            if inp.get("named") and d.key != "named-method-call":
+                ctx.fail("dask_key_name of a method call is not the key", observed=d.key)
+            if inp.get("pure") and not inp.get("named"):
+                args2 = [build_pv(a, leaves, False) for a in inp["args"]]
+                kwargs2 = {k: build_pv(v, leaves, False) for k, v in inp["kwargs"]}
+                if not any("\"i" in json.dumps(a) for a in inp["args"] + [v for _, v in inp["kwargs"]]):
+                    d2 = delayed(_Holder(), name="holder").capture(*args2, **kwargs2, pure=True)
+                    if d2.key != d.key:
+                        ctx.fail("identical pure method calls get different keys", observed=[d.key, d2.key])
+        elif how == "callable":
+            # calling a delayed callable (Delayed.__call__ -> apply)
+            d = delayed(_capture, name="capture-leaf")(*args, **kwargs) if not inp.get("pure") else \
+                delayed(delayed(_ident)(_capture))(*args, pure=True, **kwargs)
+        else:
+            d = delayed(_capture, **opts)(*args, **kwargs)
         got = d.compute(scheduler="sync")
     except Exception as e:
         ctx.fail(f"a delayed call with nested arguments raised {type(e).__name__}: {str(e)[:150]}", observed=type(e).__name__)
@@ -920,17 +965,68 @@ def case_unpackfn(ctx, inp):
     if _typed(got) != _typed(want):
         ctx.fail("delayed program computes a different value than the same program run eagerly (nested arguments)",
                  observed=_typed(got), expected=_typed(want))
-    if not any(a[0] in ("ilist", "ituple", "iset") for a in inp["args"] + [v for _, v in inp["kwargs"]]):
+    ctx.branch("unpack-how-" + how)
+    if how == "function" and not any("\"i" in json.dumps(a) for a in inp["args"] + [v for _, v in inp["kwargs"]]):
         t = dict(d.__dask_graph__())[d.key]
         m_args, m_kw, m_colls = ctx.lean(Sym("dcall"), [enc_pv(pv_of(a)) for a in args], [[k, enc_pv(pv_of(v))] for k, v in kwargs.items()])
-        ctx.eq("task of the call: positional arguments", [dec_tt(x) for x in m_args], [canon_task(a) for a in t.args])
-        ctx.eq("task of the call: keyword arguments", sorted([str(k), dec_tt(v)] for k, v in m_kw),
-               sorted([k, canon_task(v)] for k, v in t.kwargs.items()))
+        ctx.eq("task of the call: positional arguments", _canon_sets([dec_tt(x) for x in m_args]), _canon_sets([canon_task(a) for a in t.args]))
+        ctx.eq("task of the call: keyword arguments", _canon_sets(sorted([str(k), dec_tt(v)] for k, v in m_kw)),
+               _canon_sets(sorted([k, canon_task(v)] for k, v in t.kwargs.items())))
         ctx.eq("task of the call: dependencies", sorted({f"k{k}" for k in m_colls}), sorted(map(str, t.dependencies)))
     for k in kinds:
         ctx.branch("unpack-" + k)
     if inp["kwargs"]:
         ctx.branch("unpack-kwargs")
+
+
+def _deiter(spec):
+    t = spec[0]
+    if t in ("lit", "del"):
+        return spec
+    if t in ("ilist", "ituple", "iset"):
+        t = t[1:]
+    if t == "dict":
+        return ["dict", [[_deiter(k), _deiter(v)] for k, v in spec[1]]]
+    if t == "slice":
+        return ["slice"] + [_deiter(x) for x in spec[1:4]]
+    if t in ("dc", "nt"):
+        return [t, spec[1], [_deiter(x) for x in spec[2]]]
+    return [t, [_deiter(x) for x in spec[1]]]
+
+
+def _same_shape(spec, actual):
+    """did Python keep every entry (no two equal set elements / dict keys were merged)?"""
+    t = spec[0]
+    if t in ("lit", "del"):
+        return actual[0] == t
+    if actual[0] != (t[1:] if t in ("ilist", "ituple", "iset") else t):
+        return False
+    if t == "dict":
+        return len(spec[1]) == len(actual[1]) and all(_same_shape(k, ak) and _same_shape(v, av) for (k, v), (ak, av) in zip(spec[1], actual[1]))
+    if t == "slice":
+        return all(_same_shape(x, ax) for x, ax in zip(spec[1:4], actual[1:4]))
+    if t in ("dc", "nt"):
+        return len(spec[2]) == len(actual[2]) and all(_same_shape(x, ax) for x, ax in zip(spec[2], actual[2]))
+    if t in ("set", "iset"):
+        return len(spec[1]) == len(actual[1])
+    return len(spec[1]) == len(actual[1]) and all(_same_shape(x, ax) for x, ax in zip(spec[1], actual[1]))
+
+
+def _retag(spec, actual):
+    """`actual` (read off the twin object: real iteration order of sets) with the iterator tags of `spec` put back;
+    sets hold no iterators (their elements are hashable values), everything else keeps its order"""
+    t = spec[0]
+    if t in ("lit", "del"):
+        return actual
+    if t in ("set", "iset"):
+        return [t, actual[1]]
+    if t == "dict":
+        return ["dict", [[_retag(k, ak), _retag(v, av)] for (k, v), (ak, av) in zip(spec[1], actual[1])]]
+    if t == "slice":
+        return ["slice"] + [_retag(x, ax) for x, ax in zip(spec[1:4], actual[1:4])]
+    if t in ("dc", "nt"):
+        return [t, actual[1], [_retag(x, ax) for x, ax in zip(spec[2], actual[2])]]
+    return [t, [_retag(x, ax) for x, ax in zip(spec[1], actual[1])]]
 
 
 def _pv_dels(spec):
@@ -982,28 +1078,15 @@ def gen_pv(rng, depth, hashable=False, maxdepth=4):
 
 
 def _distinct_pv(specs):
-    """distinct as python values after evaluation: delayed k evaluates to 1000 + k, lits stay below 10"""
-    out = []
+    """distinct as python values, before and after evaluation (a namedtuple equals the plain tuple of its fields; a
+    Delayed k evaluates to 1000 + k, literals stay below 10): otherwise a set / dict would merge the entries"""
+    out, vals = [], []
     for s in specs:
-        if s not in out:
+        v = build_pv(s, {}, True)
+        if s not in out and not any(v == w and hash(v) == hash(w) for w in vals):
             out.append(s)
+            vals.append(v)
     return out
-
-
-def _fix_iters(spec, top=True):
-    """iterators are consumed once: only at the top of an argument (nested ones would be exhausted by the harness)"""
-    t = spec[0]
-    if t in ("lit", "del"):
-        return spec
-    if t in ("ilist", "ituple", "iset") and not top:
-        t = t[1:]
-    if t == "dict":
-        return ["dict", [[_fix_iters(k, False), _fix_iters(v, False)] for k, v in spec[1]]]
-    if t == "slice":
-        return ["slice"] + [_fix_iters(x, False) for x in spec[1:4]]
-    if t in ("dc", "nt"):
-        return [t, spec[1], [_fix_iters(x, False) for x in spec[2]]]
-    return [t, [_fix_iters(x, False) for x in spec[1]]]
 
 
 CASES = {"sym": case_sym, "purekey": case_purekey, "surface": case_surface, "nout": case_nout, "keys": case_keys,
@@ -1133,11 +1216,17 @@ def generate(ctx):
         yield "purekey", {"f": rng.randrange(len(U.FUNCS)), "calls": calls}
     for e in EXPLICIT_UNPACK:
         yield "unpackfn", dict(e)
+    # every argument up to depth 2 over {literal, two Delayed}: all of them in the thorough tier, every fifth otherwise
+    from props import _token_exhaustive as X
+    for i, case in enumerate(X.pv_cases()):
+        if ctx.thorough() or i % 5 == ctx.seed % 5:
+            yield case
     for _ in range(ctx.n(300, 4000)):
-        args = [_fix_iters(gen_pv(rng, 0)) for _ in range(rng.randint(0, 3))]
-        kwargs = [[k, _fix_iters(gen_pv(rng, 0))] for k in rng.sample(["shape", "cfg", "x", "key"], rng.choice([0, 0, 1, 2]))]
+        args = [gen_pv(rng, 0) for _ in range(rng.randint(0, 3))]
+        kwargs = [[k, gen_pv(rng, 0)] for k in rng.sample(["shape", "cfg", "x", "key"], rng.choice([0, 0, 1, 2]))]
         yield "unpackfn", {"args": args, "kwargs": kwargs, "pure": rng.random() < 0.3,
-                           "leafkind": rng.choice(["leaf", "leaf", "call"])}
+                           "leafkind": rng.choice(["leaf", "leaf", "call"]),
+                           "how": rng.choice(["function", "function", "function", "method", "callable"]), "named": rng.random() < 0.3}
     for i in range(ctx.n(110, 1500)):
         yield "surface", {"idx": i, "a": rng.randint(1, 4), "b": rng.randint(1, 5), "lst": [rng.randint(0, 9) for _ in range(4)],
                           "scheduler": rng.choice(["sync", "threads"])}
